@@ -86,6 +86,10 @@ type DelayPlan struct {
 
 var ErrCustom = errors.New("verif: injected source failure")
 
+// PostFaultPollLimit: how often a source that keeps returning the same error may be asked again
+// before the harness gives up (every correct workflow asks at most once per outstanding sample).
+const PostFaultPollLimit = 20000
+
 // tempErr is a temporary-class error (Temporary() and Timeout() true), like EAGAIN or a net timeout.
 type tempErr struct{ msg string }
 
@@ -105,6 +109,10 @@ func (f *FaultPlan) err() error {
 		return ErrTemporary
 	case "eagain":
 		return syscall.EAGAIN
+	case "eintr":
+		return syscall.EINTR
+	case "wrapped-eintr":
+		return fmt.Errorf("rng device: %w", syscall.EINTR)
 	}
 	return ErrCustom
 }
@@ -215,6 +223,12 @@ func (r *Reader) Read(p []byte) (int, error) {
 	r.Calls++
 	if r.fired {
 		r.PostCalls++
+		if r.fault != nil && r.fault.Sticky && r.PostCalls > PostFaultPollLimit {
+			r.mu.Unlock()
+			// a logical, not a wall-clock, verdict on "retries for ever": the source has answered with the same
+			// sticky error this many times and is still being polled
+			panic(fmt.Sprintf("verif: source polled %d times after it had failed for good (%v)", r.PostCalls, r.fault.err()))
+		}
 	}
 	if len(r.Events) < r.MaxEvents {
 		ev := ReadEvent{Seq: atomic.AddInt64(r.seq, 1), Gid: Gid(), Req: len(p), Off: r.pos, Post: r.fired}
